@@ -148,6 +148,29 @@ def _iso_pool(sim, host, b_iso, hci):
                 return
         if len(out) != total:
             sim.violation_once('iso-stall', 'stall:iso-pool', f'{len(out)} of {total} ISO packets handed over although every one handed over was completed')
+            return
+        # ---- a broadcast group (two BIS) fills the pool and is then terminated with packets in flight and waiting: what it held is
+        # given back, and the CIS, which shares the pool, is served at once
+        BIS = [0x0E10, 0x0E11]
+        host.on_packet(bytes(hci.HCI_LE_Create_BIG_Complete_Event(status=0, big_handle=1, big_sync_delay=0, transport_latency_big=0, phy=1, nse=1, bn=1, pto=0, irc=1,
+                                                                  max_pdu=100, iso_interval=8, connection_handle=BIS)))
+        if not all(h in host.bis_links for h in BIS):
+            raise HarnessError('BIS links not created')
+        before = len(out)
+        for k in range(b_iso + 2):
+            host.send_iso_sdu(BIS[k % 2], bytes([0x80 + k]) * 12)
+        sim.loop.settle()
+        if len(out) - before > b_iso:
+            sim.violation_once('iso-overrun', 'overrun:iso-pool:bis', f'{len(out) - before} ISO packets outstanding, {b_iso} buffers')
+            return
+        host.remove_big(1)
+        sim.probe('big_terminated_with_iso_packets_in_flight')
+        before = len(out)
+        for k in range(b_iso):
+            host.send_iso_sdu(ISO_HANDLE, bytes([0x40 + k]) * 9)
+        sim.loop.settle()
+        if len(out) - before != b_iso:
+            sim.violation_once('iso-stall', 'stall:iso-pool:after-a-big-was-terminated', f'{len(out) - before} of {b_iso} CIS packets handed over after the group that held the whole pool was terminated')
     finally:
         host.set_packet_sink(real)
 
